@@ -306,6 +306,20 @@ void module_close_all(void)
         }
     } while (progress);
 
+    /* Then the back-end modules, which may depend on each other (and
+     * on what they kept loaded) just the same. */
+    do {
+        progress = 0;
+        for (node = set_first(&modules); node; node = next) {
+            next = set_next(node);
+            module = set_node_data(node);
+            if (module->rdepends.used)
+                continue;
+            set_remove(&modules, module, 0);
+            progress = 1;
+        }
+    } while (progress);
+
     /* Go through and remove any remaining modules. */
     for (node = set_first(&modules); node; node = next) {
         next = set_next(node);
